@@ -939,3 +939,356 @@ Proof.
   split; [|vm_compute; reflexivity].
   intros _. vm_compute. repeat constructor.
 Qed.
+
+(* ================================================================== C46: Basic proxy authentication *)
+Lemma leq_spec (a : bytes) : forall b, list_eqb a b = true <-> a = b.
+Proof.
+  induction a as [|x a IH]; intros [|y b]; cbn [list_eqb]; try (split; [discriminate| congruence]); [tauto|].
+  rewrite andb_true_iff, N.eqb_eq, IH. split; [intros [-> ->]; reflexivity| intros H; injection H; auto].
+Qed.
+Lemma leq_refl (a : bytes) : list_eqb a a = true.
+Proof. now apply leq_spec. Qed.
+
+Lemma find_set_same k u us : find_user k (set_user k u us) = Some u.
+Proof.
+  induction us as [|[k' u'] us IH]; cbn [set_user find_user]; [now rewrite leq_refl|].
+  destruct (list_eqb k k') eqn:E; cbn [find_user]; [now rewrite leq_refl| now rewrite E].
+Qed.
+
+Lemma find_set_other k k' u us : k <> k' -> find_user k' (set_user k u us) = find_user k' us.
+Proof.
+  intros Hne. induction us as [|[k2 u2] us IH]; cbn [set_user find_user].
+  - destruct (list_eqb k' k) eqn:E; [apply leq_spec in E; congruence| reflexivity].
+  - destruct (list_eqb k k2) eqn:E; cbn [find_user].
+    + apply leq_spec in E. subst k2.
+      destruct (list_eqb k' k) eqn:E2; [apply leq_spec in E2; congruence| reflexivity].
+    + destruct (list_eqb k' k2); [reflexivity| exact IH].
+Qed.
+
+Lemma find_set_cases k k' u us :
+  (k' = k /\ find_user k' (set_user k u us) = Some u) \/ (k' <> k /\ find_user k' (set_user k u us) = find_user k' us).
+Proof.
+  destruct (list_eq_dec N.eq_dec k' k) as [->|H]; [left; split; [reflexivity| apply find_set_same]|].
+  right. split; [exact H| apply find_set_other; congruence].
+Qed.
+
+Lemma take_lookup_sound rid ls x rest :
+  take_lookup rid ls = Some (x, rest) -> In (rid, x) ls /\ incl rest ls.
+Proof.
+  revert x rest. induction ls as [|[r y] ls IH]; intros x rest; cbn [take_lookup]; [discriminate|].
+  destruct (r =? rid) eqn:E.
+  - intros H. injection H as <- <-. apply N.eqb_eq in E. subst r. split; [now left| intros z Hz; now right].
+  - destruct (take_lookup rid ls) as [[y' rest']|]; [|discriminate]. intros H. injection H as <- <-.
+    destruct (IH y' rest' eq_refl) as [I1 I2]. split; [now right|].
+    intros z [Hz|Hz]; [now left| right; now apply I2].
+Qed.
+
+(* the credentials a request presents: None when there is no header or it does not decode to user:password *)
+Definition creds (cfg : acfg) (hdr : option bytes) : option (bytes * bytes) :=
+  match hdr with None => None | Some h => decode_header (c_casesensitive cfg) h end.
+
+Section AuthProofs.
+  Variable good : bytes -> bytes -> bool.
+  Variable cfg : acfg.
+
+  (* valid arrivals seen so far: (request, user name, password) *)
+  Fixpoint seen_of (evs : list aev) : list (N * bytes * bytes) :=
+    match evs with
+    | [] => []
+    | Arrive rid hdr :: r => match creds cfg hdr with
+                             | Some (u, p) => (rid, u, p) :: seen_of r
+                             | None => seen_of r
+                             end
+    | _ :: r => seen_of r
+    end.
+
+  Definition named (seen : list (N * bytes * bytes)) (rid : N) (u : bytes) : Prop := exists p, In (rid, u, p) seen.
+  Definition approved (seen : list (N * bytes * bytes)) (u : bytes) : Prop :=
+    exists rid p, In (rid, u, p) seen /\ good u p = true.
+
+  Definition Inv (st : astate) (seen : list (N * bytes * bytes)) : Prop :=
+    (forall rid u, In (rid, Some u) (a_out st) -> named seen rid u /\ approved seen u) /\
+    (forall rid u s, In (rid, (u, s)) (a_lookups st) -> named seen rid u /\ exists rid', In (rid', u, s) seen) /\
+    (forall name usr, find_user name (a_users st) = Some usr ->
+       (forall rid, In rid (u_queue usr) -> named seen rid name) /\
+       (exists rid', In (rid', name, u_pass usr) seen) /\
+       (u_cred usr = COk -> approved seen name)).
+
+  Lemma Inv_mono st seen x : Inv st seen -> Inv st (seen ++ [x]).
+  Proof.
+    assert (N1 : forall rid u, named seen rid u -> named (seen ++ [x]) rid u).
+    { intros rid u (p & H). exists p. apply in_or_app. now left. }
+    assert (A1 : forall u, approved seen u -> approved (seen ++ [x]) u).
+    { intros u (rid & p & H & G). exists rid, p. split; [apply in_or_app; now left| exact G]. }
+    intros (I1 & I2 & I3). repeat split.
+    - apply N1, (I1 rid u H).
+    - apply A1, (I1 rid u H).
+    - apply N1, (I2 rid u s H).
+    - destruct (I2 rid u s H) as [_ (r' & Hr)]. exists r'. apply in_or_app. now left.
+    - intros rid Hq. apply N1. exact (proj1 (I3 name usr H) rid Hq).
+    - destruct (proj1 (proj2 (I3 name usr H))) as (r' & Hr). exists r'. apply in_or_app. now left.
+    - intros Hc. apply A1. exact (proj2 (proj2 (I3 name usr H)) Hc).
+  Qed.
+
+  Definition UserOk (seen : list (N * bytes * bytes)) (name : bytes) (usr : user) : Prop :=
+    (forall rid, In rid (u_queue usr) -> named seen rid name) /\
+    (exists rid', In (rid', name, u_pass usr) seen) /\
+    (u_cred usr = COk -> approved seen name).
+
+  Lemma users_set seen us name u' :
+    (forall n usr, find_user n us = Some usr -> UserOk seen n usr) -> UserOk seen name u' ->
+    forall n usr, find_user n (set_user name u' us) = Some usr -> UserOk seen n usr.
+  Proof.
+    intros H Hu n usr Hf. destruct (find_set_cases name n u' us) as [[-> E]|[Hne E]]; rewrite E in Hf.
+    - injection Hf as <-. exact Hu.
+    - exact (H n usr Hf).
+  Qed.
+
+  Lemma out_app (P : N -> bytes -> Prop) out rid v :
+    (forall r u, In (r, Some u) out -> P r u) -> (forall u, v = Some u -> P rid u) ->
+    forall r u, In (r, Some u) (out ++ [(rid, v)]) -> P r u.
+  Proof.
+    intros H1 H2 r u Hin. apply in_app_or in Hin as [Hin|[Hin|[]]]; [exact (H1 r u Hin)|].
+    injection Hin as E1 E2. subst r. apply H2. now symmetry.
+  Qed.
+
+  Lemma evaluate_inv st seen rid name :
+    Inv st seen -> named seen rid name -> Inv (evaluate cfg st rid name) seen.
+  Proof.
+    intros (I1 & I2 & I3) Hn. unfold evaluate.
+    assert (Deny : Inv (mkA (a_users st) (a_lookups st) (a_out st ++ [(rid, None)]) (a_now st)) seen).
+    { split; [|split]; cbn [a_out a_lookups a_users]; [|exact I2|exact I3].
+      apply out_app; [exact I1| discriminate]. }
+    destruct (find_user name (a_users st)) as [u|] eqn:Fu; [|exact Deny].
+    destruct (I3 name u Fu) as (Q1 & Q2 & Q3).
+    assert (Lookup : Inv (mkA (set_user name (mkU (u_pass u) Pending (u_expire u) (u_queue u)) (a_users st))
+                              (a_lookups st ++ [(rid, (name, u_pass u))]) (a_out st) (a_now st)) seen).
+    { split; [|split]; cbn [a_out a_lookups a_users]; [exact I1| |].
+      - intros r u0 s0 Hin. apply in_app_or in Hin as [Hin|[Hin|[]]]; [exact (I2 r u0 s0 Hin)|].
+        injection Hin as <- <- <-. split; [exact Hn| exact Q2].
+      - apply users_set; [exact I3|]. split; [|split]; cbn [u_queue u_pass u_cred]; [exact Q1| exact Q2| discriminate]. }
+    destruct (user_authenticated cfg (a_now st) u) eqn:Ea.
+    - (* authorised: the shared user is Ok *)
+      assert (Hok : u_cred u = COk).
+      { unfold user_authenticated in Ea. apply andb_prop in Ea as [Ea _]. destruct (u_cred u); try discriminate. reflexivity. }
+      split; [|split]; cbn [a_out a_lookups a_users]; [|exact I2|exact I3].
+      apply out_app; [exact I1|]. intros u0 E. injection E as <-. split; [exact Hn| exact (Q3 Hok)].
+    - destruct (u_cred u) eqn:Ec; [exact Lookup| |exact Lookup|exact Deny].
+      (* Pending: queued on the shared user *)
+      split; [|split]; cbn [a_out a_lookups a_users]; [exact I1|exact I2|].
+      apply users_set; [exact I3|]. split; [|split]; cbn [u_queue u_pass u_cred]; [|exact Q2|discriminate].
+      intros r [<-|Hr]; [exact Hn| exact (Q1 r Hr)].
+  Qed.
+
+  Lemma fold_evaluate_inv seen name l : forall st,
+    Inv st seen -> (forall q, In q l -> named seen q name) ->
+    Inv (fold_left (fun s q => evaluate cfg s q name) l st) seen.
+  Proof.
+    induction l as [|q l IH]; intros st I H; cbn [fold_left]; [exact I|].
+    apply IH; [apply evaluate_inv; [exact I| apply H; now left]| intros q' Hq; apply H; now right].
+  Qed.
+
+  Lemma seen_of_app a b : seen_of (a ++ b) = seen_of a ++ seen_of b.
+  Proof.
+    induction a as [|e a IH]; [reflexivity|]. cbn [app seen_of].
+    destruct e as [rid hdr|rid|dt]; try exact IH. destruct (creds cfg hdr) as [[u p]|]; [cbn [app]; now rewrite IH| exact IH].
+  Qed.
+
+  Lemma decode_cache_inv st seen rid name pass :
+    Inv st seen -> In (rid, name, pass) seen -> Inv (decode_into_cache st name pass) seen.
+  Proof.
+    intros (I1 & I2 & I3) Hin. unfold decode_into_cache.
+    split; [|split]; cbn [a_out a_lookups a_users]; [exact I1| exact I2|].
+    apply users_set; [exact I3|].
+    destruct (find_user name (a_users st)) as [u|] eqn:Fu.
+    - destruct (I3 name u Fu) as (Q1 & Q2 & Q3).
+      destruct (list_eqb pass (u_pass u)) eqn:Ep.
+      + destruct (u_cred u) eqn:Ec; split; try split; cbn [u_queue u_pass u_cred]; try assumption; try discriminate;
+          rewrite ?Ec; try discriminate; try (intros _; now apply Q3).
+      + cbn [u_cred u_pass u_queue]. split; [|split]; cbn [u_queue u_pass u_cred]; [exact Q1| now exists rid| discriminate].
+    - split; [|split]; cbn [u_queue u_pass u_cred]; [intros r []| now exists rid| discriminate].
+  Qed.
+
+  Lemma astep_inv st pre ev : Inv st (seen_of pre) -> Inv (astep good cfg st ev) (seen_of (pre ++ [ev])).
+  Proof.
+    intros I. rewrite seen_of_app. destruct ev as [rid hdr|rid|dt]; cbn [seen_of astep].
+    - (* arrival *)
+      assert (Deny : Inv (mkA (a_users st) (a_lookups st) (a_out st ++ [(rid, None)]) (a_now st)) (seen_of pre)).
+      { destruct I as (I1 & I2 & I3). split; [|split]; cbn [a_out a_lookups a_users]; [|exact I2|exact I3].
+        apply out_app; [exact I1| discriminate]. }
+      destruct hdr as [h|]; cbn [creds]; [|rewrite app_nil_r; exact Deny].
+      destruct (decode_header (c_casesensitive cfg) h) as [[name pass]|]; [|rewrite app_nil_r; exact Deny].
+      apply evaluate_inv; [|exists pass; apply in_or_app; right; now left].
+      apply (decode_cache_inv _ _ rid); [now apply Inv_mono| apply in_or_app; right; now left].
+    - (* helper reply *)
+      rewrite app_nil_r. destruct (take_lookup rid (a_lookups st)) as [[[name sent] rest]|] eqn:Et; [|exact I].
+      destruct (take_lookup_sound _ _ _ _ Et) as [T1 T2]. destruct I as (I1 & I2 & I3).
+      destruct (I2 rid name sent T1) as [Hn (r' & Hs)].
+      destruct (find_user name (a_users st)) as [u|] eqn:Fu.
+      + destruct (I3 name u Fu) as (Q1 & Q2 & Q3).
+        apply fold_evaluate_inv; [|intros q [<-|Hq]; [exact Hn| exact (Q1 q Hq)]].
+        split; [|split]; cbn [a_out a_lookups a_users]; [exact I1| intros r u0 s0 Hin; apply I2, T2, Hin|].
+        apply users_set; [exact I3|]. split; [|split]; cbn [u_queue u_pass u_cred]; [intros r []| exact Q2|].
+        destruct (good name sent) eqn:G; [|discriminate]. intros _. exists r', sent. split; assumption.
+      + split; [|split]; cbn [a_out a_lookups a_users]; [exact I1| intros r u0 s0 Hin; apply I2, T2, Hin| exact I3].
+    - rewrite app_nil_r. destruct I as (I1 & I2 & I3). split; [|split]; assumption.
+  Qed.
+
+  Lemma arun_inv evs : forall pre st, Inv st (seen_of pre) -> Inv (arun good cfg st evs) (seen_of (pre ++ evs)).
+  Proof.
+    induction evs as [|ev evs IH]; intros pre st I; cbn [arun fold_left].
+    - now rewrite app_nil_r.
+    - change (fold_left (astep good cfg) evs (astep good cfg st ev)) with (arun good cfg (astep good cfg st ev) evs).
+      replace (pre ++ ev :: evs) with ((pre ++ [ev]) ++ evs) by (now rewrite <- app_assoc).
+      apply IH. now apply astep_inv.
+  Qed.
+
+  Lemma Inv_init : Inv a_init [].
+  Proof. split; [|split]; cbn; [intros ? ? []| intros ? ? ? []| discriminate]. Qed.
+
+  Lemma seen_of_In evs rid u p :
+    In (rid, u, p) (seen_of evs) -> exists hdr, In (Arrive rid hdr) evs /\ creds cfg hdr = Some (u, p).
+  Proof.
+    induction evs as [|e evs IH]; cbn [seen_of]; [intros []|].
+    destruct e as [r hdr|r|dt]; try (intros H; destruct (IH H) as (h & H1 & H2); exists h; split; [now right| exact H2]).
+    destruct (creds cfg hdr) as [[u' p']|] eqn:Ec.
+    - intros [H|H].
+      + injection H as -> -> ->. exists hdr. split; [now left| exact Ec].
+      + destruct (IH H) as (h & H1 & H2). exists h. split; [now right| exact H2].
+    - intros H. destruct (IH H) as (h & H1 & H2). exists h. split; [now right| exact H2].
+  Qed.
+
+  (* T-B (all interleavings): whoever is authorised is authorised under the user name of its own credentials, and
+     the helper has accepted some password presented for that user name *)
+  Theorem authorised_under_own_name evs rid u :
+    In (rid, Some u) (a_out (arun good cfg a_init evs)) ->
+    (exists hdr p, In (Arrive rid hdr) evs /\ creds cfg hdr = Some (u, p)) /\
+    (exists rid' hdr' p', In (Arrive rid' hdr') evs /\ creds cfg hdr' = Some (u, p') /\ good u p' = true).
+  Proof.
+    intros H. destruct (arun_inv evs [] a_init Inv_init) as (I1 & _ & _). cbn [app] in I1.
+    destruct (I1 rid u H) as [(p & Hp) (r' & p' & Hp' & G)]. split.
+    - destruct (seen_of_In _ _ _ _ Hp) as (hdr & H1 & H2). now exists hdr, p.
+    - destruct (seen_of_In _ _ _ _ Hp') as (hdr & H1 & H2). now exists r', hdr, p'.
+  Qed.
+
+  (* T-A: no header, or a header that does not decode to user:password: 407 at once ... *)
+  Theorem no_credentials_challenged st rid hdr :
+    creds cfg hdr = None ->
+    astep good cfg st (Arrive rid hdr) = mkA (a_users st) (a_lookups st) (a_out st ++ [(rid, None)]) (a_now st).
+  Proof.
+    destruct hdr as [h|]; cbn [creds astep]; [|reflexivity]. intros ->. reflexivity.
+  Qed.
+
+  (* ... and never authorised afterwards, whatever else happens *)
+  Theorem no_credentials_never_forwarded evs rid :
+    (forall hdr, In (Arrive rid hdr) evs -> creds cfg hdr = None) ->
+    forall u, ~ In (rid, Some u) (a_out (arun good cfg a_init evs)).
+  Proof.
+    intros H u Hin. destruct (authorised_under_own_name evs rid u Hin) as [(hdr & p & H1 & H2) _].
+    rewrite (H hdr H1) in H2. discriminate.
+  Qed.
+
+  (* ---------------------------------------------------------------- sequential histories *)
+  (* every lookup is answered before the next request arrives (clock ticks anywhere between the rounds) *)
+  Inductive seq_evs : list aev -> Prop :=
+  | seq_nil : seq_evs []
+  | seq_tick dt r : seq_evs r -> seq_evs (Tick dt :: r)
+  | seq_round rid hdr r : seq_evs r -> seq_evs (Arrive rid hdr :: Reply rid :: r).
+
+  Definition UQuiet (name : bytes) (usr : user) : Prop :=
+    u_queue usr = [] /\ u_cred usr <> Pending /\ (u_cred usr = COk -> good name (u_pass usr) = true).
+
+  Definition Quiet (st : astate) : Prop :=
+    a_lookups st = [] /\ forall name usr, find_user name (a_users st) = Some usr -> UQuiet name usr.
+
+  Lemma set_set k a b us : set_user k b (set_user k a us) = set_user k b us.
+  Proof.
+    induction us as [|[k' u'] us IH]; cbn [set_user]; [now rewrite leq_refl|].
+    destruct (list_eqb k k') eqn:E; cbn [set_user]; [now rewrite leq_refl| now rewrite E, IH].
+  Qed.
+
+  Lemma quiet_set us name u' :
+    (forall n usr, find_user n us = Some usr -> UQuiet n usr) -> UQuiet name u' ->
+    forall n usr, find_user n (set_user name u' us) = Some usr -> UQuiet n usr.
+  Proof.
+    intros H Hu n usr Hf. destruct (find_set_cases name n u' us) as [[-> E]|[Hne E]]; rewrite E in Hf.
+    - injection Hf as <-. exact Hu.
+    - exact (H n usr Hf).
+  Qed.
+
+  Hypothesis ttl_pos : (0 < c_ttl cfg)%Z.
+
+  Lemma round_quiet st rid hdr :
+    Quiet st ->
+    let st' := astep good cfg (astep good cfg st (Arrive rid hdr)) (Reply rid) in
+    Quiet st' /\
+    forall r u, In (r, Some u) (a_out st') ->
+                In (r, Some u) (a_out st) \/ (r = rid /\ exists p, creds cfg hdr = Some (u, p) /\ good u p = true).
+  Proof.
+    intros [QL QU]. cbv zeta.
+    assert (Deny : let s1 := mkA (a_users st) (a_lookups st) (a_out st ++ [(rid, None)]) (a_now st) in
+                   Quiet (astep good cfg s1 (Reply rid)) /\
+                   forall r u, In (r, Some u) (a_out (astep good cfg s1 (Reply rid))) -> In (r, Some u) (a_out st)).
+    { cbv zeta. cbn [astep a_lookups]. rewrite QL. cbn [take_lookup]. split; [split; [reflexivity| exact QU]|].
+      cbn [a_out]. intros r u Hin. apply in_app_or in Hin as [Hin|[Hin|[]]]; [exact Hin| discriminate Hin]. }
+    cbv zeta in Deny. destruct Deny as [Dn1 Dn2].
+    destruct hdr as [h|]; cbn [astep creds]; [|split; [exact Dn1| intros r u Hin; left; exact (Dn2 r u Hin)]].
+    destruct (decode_header (c_casesensitive cfg) h) as [[name pass]|] eqn:Ed;
+      [|split; [exact Dn1| intros r u Hin; left; exact (Dn2 r u Hin)]]. clear Dn1 Dn2.
+    (* the cache entry after decode() *)
+    set (st1 := decode_into_cache st name pass).
+    assert (D : exists u', a_users st1 = set_user name u' (a_users st) /\ u_pass u' = pass /\ u_queue u' = [] /\
+                           (u_cred u' = Unchecked \/ (u_cred u' = COk /\ good name pass = true))).
+    { unfold st1, decode_into_cache. cbn [a_users]. eexists. split; [reflexivity|].
+      destruct (find_user name (a_users st)) as [u|] eqn:Fu.
+      - destruct (QU name u Fu) as (U1 & U2 & U3).
+        destruct (list_eqb pass (u_pass u)) eqn:Ep.
+        + apply leq_spec in Ep. destruct (u_cred u) eqn:Ec; cbn [u_pass u_queue u_cred]; rewrite ?Ec;
+            repeat split; try (symmetry; exact Ep); try exact U1; try (now left); try congruence.
+          right. split; [reflexivity|]. rewrite Ep. now apply U3.
+        + cbn [u_pass u_queue u_cred]. repeat split; [exact U1| now left].
+      - cbn [u_pass u_queue u_cred]. repeat split. now left. }
+    destruct D as (u' & DU & DP & DQ & DC).
+    assert (L1 : a_lookups st1 = []) by exact QL.
+    assert (O1 : a_out st1 = a_out st) by reflexivity.
+    assert (F1 : find_user name (a_users st1) = Some u') by (rewrite DU; apply find_set_same).
+    unfold evaluate. rewrite F1.
+    destruct (user_authenticated cfg (a_now st1) u') eqn:Ea.
+    - (* served from the cache *)
+      assert (Hok : u_cred u' = COk).
+      { unfold user_authenticated in Ea. apply andb_prop in Ea as [Ea _]. destruct (u_cred u'); try discriminate. reflexivity. }
+      destruct DC as [DC|[_ DG]]; [congruence|].
+      cbn [astep a_lookups]. rewrite L1. cbn [take_lookup]. split.
+      + split; [exact L1|]. cbn [a_users]. rewrite DU. apply quiet_set; [exact QU|].
+        split; [exact DQ|]. split; [congruence|]. intros _. now rewrite DP.
+      + cbn [a_out]. rewrite O1. intros r u Hin. apply in_app_or in Hin as [Hin|[Hin|[]]]; [now left|].
+        injection Hin as <- <-. right. split; [reflexivity|]. exists pass. split; [exact Ed| exact DG].
+    - (* asks the helper, which answers before anything else happens *)
+      assert (Ecr : (match u_cred u' with
+                     | CFailed => mkA (a_users st1) (a_lookups st1) (a_out st1 ++ [(rid, None)]) (a_now st1)
+                     | Pending => mkA (set_user name (mkU (u_pass u') Pending (u_expire u') (rid :: u_queue u')) (a_users st1))
+                                      (a_lookups st1) (a_out st1) (a_now st1)
+                     | _ => mkA (set_user name (mkU (u_pass u') Pending (u_expire u') (u_queue u')) (a_users st1))
+                                (a_lookups st1 ++ [(rid, (name, u_pass u'))]) (a_out st1) (a_now st1)
+                     end) =
+                    mkA (set_user name (mkU pass Pending (u_expire u') []) (a_users st1)) [(rid, (name, pass))] (a_out st) (a_now st1)).
+      { rewrite L1, DP, DQ, O1. destruct DC as [DC|[DC _]]; rewrite DC; reflexivity. }
+      rewrite Ecr. clear Ecr. cbn [astep a_lookups take_lookup]. rewrite N.eqb_refl. cbn [a_users].
+      rewrite find_set_same. cbn [u_pass u_queue fold_left a_now a_out].
+      set (v := if good name pass then COk else CFailed).
+      rewrite set_set, DU, set_set.
+      set (us2 := set_user name (mkU pass v (a_now st1) []) (a_users st)).
+      assert (QU2 : forall n usr, find_user n us2 = Some usr -> UQuiet n usr).
+      { unfold us2. apply quiet_set; [exact QU|].
+        split; [reflexivity|]. unfold v. cbn [u_cred u_pass]. destruct (good name pass) eqn:G; split; congruence. }
+      unfold evaluate. cbn [a_users]. unfold us2 at 1. rewrite find_set_same.
+      unfold user_authenticated. cbn [u_cred u_expire a_now].
+      unfold v. destruct (good name pass) eqn:G; cbn [is_ok andb u_cred].
+      + assert (Hlt : (a_now st1 <? a_now st1 + c_ttl cfg)%Z = true) by (apply Z.ltb_lt; lia).
+        rewrite Hlt. split; [split; [reflexivity| exact QU2]|].
+        cbn [a_out]. intros r u Hin. apply in_app_or in Hin as [Hin|[Hin|[]]]; [now left|].
+        injection Hin as <- <-. right. split; [reflexivity|]. exists pass. split; [exact Ed| exact G].
+      + split; [split; [reflexivity| exact QU2]|].
+        cbn [a_out]. intros r u Hin. apply in_app_or in Hin as [Hin|[Hin|[]]]; [now left| discriminate Hin].
+  Qed.
+End AuthProofs.
